@@ -39,6 +39,15 @@ def fantasy_case(draw):
         steps.append(step)
     case["fshape"] = fshape
     case["steps"] = steps
+    # missing observations in the SOURCE model, handled by observation_nan_policy while fantasising and predicting
+    case["nan_policy"] = None
+    if not mb and case["n"] >= 2 and draw(st.integers(0, 2)) == 0:
+        miss = draw(st.lists(st.booleans(), min_size=case["n"], max_size=case["n"]))
+        if all(miss):
+            miss[0] = False
+        if any(miss):
+            case["missing"] = miss
+            case["nan_policy"] = draw(st.sampled_from(["mask", "fill"]))
     case["fpv"] = draw(st.booleans())
     case["detach"] = draw(st.booleans())
     case["Xs"] = draw(kern.points(case["ns"], case["d"], mb))
@@ -79,16 +88,22 @@ def run_fantasy(case, ctx: Ctx):
     X, y, Xs = T(case["X"]), T(case["y"]), T(case["Xs"])
     n, d = case["n"], case["d"]
     mb = torch.Size(case["mb"])
+    policy = case.get("nan_policy")
+    miss0 = torch.tensor(case["missing"], dtype=torch.bool) if policy else None
     with ctx.observing("build"):
         model, lik = G.build_exact(case)
+        if policy:
+            model.set_train_data(targets=torch.where(miss0, torch.full_like(y, float("nan")), y), strict=False)
         model.eval()
         lik.eval()
+    if policy:
+        ctx.cls += f"|nan:{policy}"
     # oracle bookkeeping: current data and noise diagonal
     cur_X, cur_y = X, y
     cur_noise = G.ref_noise_diag(case["lik"], n, mb)
     second = T(case["lik"]["second_noise"]) if case["lik"].get("learn") else None
     moved = False
-    with S.fast_pred_var(case["fpv"]), S.detach_test_caches(case["detach"]), torch.no_grad():
+    with S.fast_pred_var(case["fpv"]), S.detach_test_caches(case["detach"]), S.observation_nan_policy(policy or "ignore"), torch.no_grad():
         with ctx.observing("source.predict"):
             before = model(Xs)
             bm, bc = before.mean.clone(), before.covariance_matrix.clone()
@@ -116,7 +131,14 @@ def run_fantasy(case, ctx: Ctx):
             # dense conditional on the concatenated data with the same hyper-parameters (the model's own kernel, eager)
             with ctx.observing("own_prior"):
                 Kxx, Kxs, Kss, mx, ms = G.own_prior_blocks(model, cur_X, Xs)
-            mean_w, cov_w, kappa, A = G.dense_conditional(Kxx, Kxs, Kss, mx, ms, cur_noise, cur_y)
+            if policy:
+                # delete the missing source observations (fantasy observations are complete)
+                keep = torch.cat([~miss0, torch.ones(cur_y.shape[-1] - n, dtype=torch.bool)])
+                idx = torch.nonzero(keep).reshape(-1)
+                mean_w, cov_w, kappa, A = G.dense_conditional(Kxx[..., idx, :][..., :, idx], Kxs[..., idx, :], Kss, mx[..., idx], ms,
+                                                              cur_noise[..., idx], cur_y[..., idx])
+            else:
+                mean_w, cov_w, kappa, A = G.dense_conditional(Kxx, Kxs, Kss, mx, ms, cur_noise, cur_y)
             tol = max(G.chol_tol(kappa, kern.smooth_at_zero(case["kernel"])), 1e-9)
             scale = max(1.0, float(cov_w.abs().max()), float(mean_w.abs().max()))
             with ctx.observing("fantasy.predict"):
@@ -132,6 +154,8 @@ def run_fantasy(case, ctx: Ctx):
             with ctx.observing("fantasy.data"):
                 fx, fy = fm.train_inputs[0], fm.train_targets
             ctx.close("fantasy.train_inputs", *_b(fx, cur_X), rtol=0, atol=0)
+            if policy:
+                continue  # targets contain NaN and the carried solves live on the observed subset: judged through the predictions only
             ctx.close("fantasy.train_targets", fy, cur_y, rtol=0, atol=0)
             # carried solves
             with ctx.observing("fantasy.caches"):
@@ -168,15 +192,17 @@ def run_fantasy(case, ctx: Ctx):
         ctx.check("source.prediction_bitwise", torch.equal(am, bm) and torch.equal(ac, bc), "source prediction changed after get_fantasy_model")
         ctx.check("source.state_dict", sd_after.keys() == sd_before.keys() and all(torch.equal(sd_after[k], sd_before[k]) for k in sd_before),
                   "source state_dict changed")
-        ctx.check("source.train_data", torch.equal(model.train_inputs[0], X) and torch.equal(model.train_targets, y), "source training data changed")
+        src_y = torch.where(miss0, torch.full_like(y, float("nan")), y) if policy else y
+        ctx.check("source.train_data", torch.equal(model.train_inputs[0], X) and torch.equal(torch.nan_to_num(model.train_targets, nan=-77.0), torch.nan_to_num(src_y, nan=-77.0)),
+                  "source training data changed")
         if lk.startswith("FixedNoise"):
             ctx.check("source.fixed_noise", torch.equal(lik.noise_covar.noise, T(case["lik"]["noise"])), "source fixed noise vector changed")
         same_cache = all(k in cache_after and (cache_before[k] is None or (cache_after[k] is not None and cache_before[k].shape == cache_after[k].shape
-                                                                           and torch.equal(cache_before[k], cache_after[k]))) for k in cache_before)
+                                                                           and torch.equal(torch.nan_to_num(cache_before[k], nan=-77.0), torch.nan_to_num(cache_after[k], nan=-77.0)))) for k in cache_before)
         ctx.check("source.caches", same_cache, "entries of the source's prediction-strategy cache changed")
     nondefault = bool(case["fshape"]) or bool(case["mb"]) or len(case["steps"]) >= 2 or lk != "Gaussian"
     ctx.set_nontrivial(moved and nondefault)
-    ctx.label(f"lik={lk}", f"mb={case['mb']}", f"f={case['fshape']}", f"steps={len(case['steps'])}", f"fpv={int(case['fpv'])}", f"det={int(case['detach'])}",
+    ctx.label(f"nan_policy={policy}", f"lik={lk}", f"mb={case['mb']}", f"f={case['fshape']}", f"steps={len(case['steps'])}", f"fpv={int(case['fpv'])}", f"det={int(case['detach'])}",
               f"shared={[s['shared'] for s in case['steps']]}", *{f"leaf={l['k']}" for l in kern.leaves(case["kernel"])})
 
 
